@@ -168,6 +168,9 @@ func propC15(c *Ctx, r *Report) {
 	r.Clauses = append(r.Clauses, guardAgreeClause+" - the workgroup zero-initialisation prologue is keyed on the recorded local_invocation_id")
 	c.runGuardAgree(r, "guard.agree", inPkgs("msl", "hlsl", "glsl", "spirv"))
 	r.floor("guard.agree", 4)
+	r.Clauses = append(r.Clauses, depthLikeClause+" - the level-of-detail clamps and size queries of the image bounds-check policies")
+	c.runDepthLike(r, "image.depthlike", inPkgs("msl", "glsl", "hlsl", "spirv"))
+	r.floor("image.depthlike", 6)
 	r.floor("spirv.Block.walkers", 3)
 	r.floor("routing.index-sites", 3)
 	r.floor("hardened.ops", 6)
